@@ -53,8 +53,12 @@ RULES = {
     "grown inside the per-shard loop and handed to a writer call (or stored) once per iteration is created inside that loop - "
     "created before it, shard k is written with the tensors of shards 1..k: tensors stored in several files, shards far over "
     "the limit holding many tensors, and every loaded tensor pointing at the last shard",
+    "R13": "what belongs to a position is not keyed by identity (shared rule S16): in the writers, a table keyed by `id(<tensor>)` holds "
+    "what belongs to the object (its write lock) - never the byte range, offset or index of the position the loop is at: one tensor "
+    "object may back several initializers (tied weights), the table then keeps the last position's data and every occurrence is "
+    "written there, leaving the earlier ranges as holes (zeros after reload)",
 }
-FLOORS = {"R1": 4, "R2": 4, "R3": 20, "R4": 1, "R5": 3, "R6": 25, "R7": 1, "R8": 2, "R9": 1, "R10": 1, "R11": 2, "R12": 3}
+FLOORS = {"R1": 4, "R2": 4, "R3": 20, "R4": 1, "R5": 3, "R6": 25, "R7": 1, "R8": 2, "R9": 1, "R10": 1, "R11": 2, "R12": 3, "R13": 1}
 EXPLANATION = (
     "Class-qualified effect summaries of the try bodies and finally blocks of the two save entry points; data-flow "
     "checks on the initializer collection loops and on the offset accumulators; table agreement between the "
@@ -557,7 +561,23 @@ def rule_r12(ctx):
     ctx.require(n >= 3, f"only {n} loops found in the save path")
 
 
+def rule_r13(ctx):
+    from ..shared import identity_keyed_positions
+
+    n = 0
+    mods = {m.name for m in ctx.repo.pkg_modules() if m.name in ("onnx_ir.external_data", "onnx_ir._io") or m.name.startswith("onnx_ir._safetensors")}
+    for f, node, kv, sibs, ok in identity_keyed_positions(ctx.repo, mods):
+        n += 1
+        ctx.check("R13", f"S16 {f.local}: table keyed by id({kv}) holds per-object data", ok, f, node,
+                  f"`{norm(node)[:80]}` stores {', '.join(sibs)} - what belongs to the position of `{kv}` in the sequence - under the identity of `{kv}`: when one tensor object "
+                  "appears at two positions (one tensor backing two initializers) the table keeps the last position only, both occurrences are written to that byte range "
+                  "and the earlier range is never written",
+                  how="value of an id()-keyed table does not read the zip / enumerate siblings of the key variable", construct=f"position data {sibs} keyed by id({kv})")
+    ctx.require(n >= 1, "no table keyed by id(<tensor>) found in the writers (the per-tensor lock table expected)")
+
+
 def run(ctx):
+    rule_r13(ctx)
     rule_r12(ctx)
     rule_r11(ctx)
     rule_r10(ctx)
